@@ -107,6 +107,9 @@ type exitInfo struct {
 	results []*Term
 	// delegated: the error operand is a callee's result handed through
 	delegated bool
+	// pred: for a virtual exit (one incoming edge of a phi-returning block)
+	// the predecessor block of that edge
+	pred *ssa.BasicBlock
 }
 
 type factResult struct {
@@ -178,6 +181,36 @@ func (P *Prog) factsOf(fn *ssa.Function) *factResult {
 		in, reach := r.in[b]
 		if !reach {
 			continue // unreachable block
+		}
+		// a return whose error operand is a phi of its own block is split into
+		// one virtual exit per incoming edge (the `if err == nil { err = f() };
+		// return err` shape): each edge has its own facts and its own value
+		if ei >= 0 && len(b.Preds) > 1 {
+			if ph, isPhi := ret.Results[ei].(*ssa.Phi); isPhi && ph.Block() == b {
+				for i, pred := range b.Preds {
+					pin, ok := r.in[pred]
+					if !ok {
+						continue
+					}
+					fs := P.transferBlock(pin.clone(), pred, nil)
+					if iff, ok := pred.Instrs[len(pred.Instrs)-1].(*ssa.If); ok && pred.Succs[0] != pred.Succs[1] {
+						P.addEdgeFacts(fs, e.of(iff.Cond), pred.Succs[0] == b, iff)
+					}
+					fs = P.transferBlock(fs, b, ret)
+					x := &exitInfo{ret: ret, facts: fs, pred: pred}
+					for _, res := range ret.Results {
+						if rp, ok := res.(*ssa.Phi); ok && rp.Block() == b {
+							x.results = append(x.results, e.of(rp.Edges[i]))
+						} else {
+							x.results = append(x.results, e.of(res))
+						}
+					}
+					x.errTerm = x.results[ei]
+					x.kind, x.delegated = P.classifyErr(x.errTerm, fs)
+					r.exits = append(r.exits, x)
+				}
+				continue
+			}
 		}
 		fs := P.transferBlock(in.clone(), b, ret)
 		x := &exitInfo{ret: ret, facts: fs}
@@ -285,6 +318,26 @@ func (P *Prog) classifyErr(t *Term, fs factSet) (exitKind, bool) {
 func (P *Prog) addEdgeFacts(fs factSet, cond *Term, val bool, at ssa.Instruction) {
 	f := normFact(cond, val)
 	fs.add(f)
+	// a boolean computed by && / || arrives as gate(c, a, b): decompose the
+	// polarities that determine the operands
+	if f.Pred.Op == "gate" && len(f.Pred.Args) == 3 {
+		c, a, b := f.Pred.Args[0], f.Pred.Args[1], f.Pred.Args[2]
+		isC := func(t *Term, v string) bool { return t.Op == "const" && t.S == v }
+		switch {
+		case f.Val && isC(b, "false"): // c && a
+			P.addEdgeFacts(fs, c, true, at)
+			P.addEdgeFacts(fs, a, true, at)
+		case f.Val && isC(a, "false"): // !c && b
+			P.addEdgeFacts(fs, c, false, at)
+			P.addEdgeFacts(fs, b, true, at)
+		case !f.Val && isC(a, "true"): // !(c || b)
+			P.addEdgeFacts(fs, c, false, at)
+			P.addEdgeFacts(fs, b, false, at)
+		case !f.Val && isC(b, "true"): // !(!c || a)
+			P.addEdgeFacts(fs, c, true, at)
+			P.addEdgeFacts(fs, a, false, at)
+		}
+	}
 	// ok(call): (res<i>(call f ...) == nil) true, or (call f == nil) true
 	if f.Val && f.Pred.Op == "binop" && f.Pred.S == "==" {
 		var other *Term
@@ -531,8 +584,63 @@ func okFact(errT *Term) Fact { return Fact{tEq(errT, tNil()), true} }
 
 // holdsNonEmpty: len(x) > 0 is implied.
 func (fs factSet) holdsNonEmpty(x *Term) bool {
-	l := tLen(x)
-	return fs.has(Fact{tEq(l, tInt(0)), false}) || fs.has(Fact{tLt(tInt(0), l), true}) || fs.has(Fact{tLe(l, tInt(0)), false})
+	return fs.lenLowerBound(x, foldInt) >= 1
+}
+
+// lenLowerBound: the largest K such that the facts imply len(x) >= K; fold
+// evaluates integer terms that are constants in this context.
+func (fs factSet) lenLowerBound(x *Term, fold func(*Term) (int64, bool)) int64 {
+	best := int64(0)
+	up := func(n int64) {
+		if n > best {
+			best = n
+		}
+	}
+	lx := tLen(x).String()
+	for _, f := range fs {
+		p := f.Pred
+		if p.Op != "binop" || len(p.Args) != 2 {
+			continue
+		}
+		a, b := p.Args[0], p.Args[1]
+		aIs, bIs := a.String() == lx, b.String() == lx
+		if aIs == bIs {
+			continue
+		}
+		var k int64
+		var ok bool
+		if aIs {
+			k, ok = fold(b)
+		} else {
+			k, ok = fold(a)
+		}
+		if !ok {
+			continue
+		}
+		switch p.S {
+		case "==":
+			if f.Val {
+				up(k)
+			} else if k == 0 {
+				up(1)
+			}
+		case "<":
+			switch {
+			case bIs && f.Val: // K < len
+				up(k + 1)
+			case aIs && !f.Val: // !(len < K)
+				up(k)
+			}
+		case "<=":
+			switch {
+			case bIs && f.Val: // K <= len
+				up(k)
+			case aIs && !f.Val: // !(len <= K)
+				up(k + 1)
+			}
+		}
+	}
+	return best
 }
 
 func (fs factSet) holdsNonNil(x *Term) bool {
